@@ -1,7 +1,7 @@
 """Contracts for pulser-core/pulser/channels/base_channel.py (timing leaves)."""
 import z3
 
-from pyvc.contracts import Al, Bridge, Q, contract, inline
+from pyvc.contracts import Al, Bridge, Q, QF, contract, inline
 from pyvc.core import OptV, to_real
 from .lib import (EOM_RISE, FALL, PJT, RISE, T, clock, fget, fnone, max_dur, max_dur_none, min_dur,
                   modbw, modbw_none, valid_channel, valid_channel_f)
